@@ -245,6 +245,7 @@ def _analyze(tier, seed):
                      dict(meta=m, model=got[:60], impl=exp[:60], args=args[:200], seed=seed))
     res.traces = len(calls)
     res.samples = [dict(meta=meta[i], impl=expect[i][:24]) for i in (0, 1, len(calls) // 2, len(calls) - 1)]
+    res.xsamples = {k: v[:2] for k, v in core.XSAMPLES.items()}
     return res
 
 
